@@ -24,6 +24,7 @@ type Finding struct {
 	Status     string `json:"status"` // open | fixed
 	What       string `json:"what"`
 	Commit     string `json:"commit,omitempty"`
+	Input      string `json:"input,omitempty"` // open finding of a bounded harness: the exact failing call
 }
 
 type checkOpts struct {
@@ -407,13 +408,32 @@ func runCheck(o *checkOpts) int {
 			nOb++
 			failed = append(failed, &obResult{Ob: &Obligation{Name: "bounded:" + o.prop + ":no-report", Kind: "structure", Descr: "the bounded harness did not run to completion"}, Status: "structure"})
 		}
-		for i, f := range bfails {
-			if i >= 3 {
-				break
-			}
+		// a recorded (open) finding of a bounded harness is identified by the exact failing call; every other
+		// failing case is a violation
+		kf := loadFindings(filepath.Join(o.verif, "known_findings.json"))
+		shown := map[string]bool{}
+		n := 0
+		for _, f := range bfails {
 			why, _ := f["why"].(string)
 			call, _ := f["call"].(string)
-			failed = append(failed, &obResult{Ob: &Obligation{Name: fmt.Sprintf("bounded:%s:%d", o.prop, i+1), Kind: "bounded", Descr: "bounded check against the real code: " + call + ": " + why}, Status: "bounded-fail", Input: f})
+			isKnown := false
+			for _, k := range kf {
+				if k.Status == "open" && k.Property == o.prop && k.Obligation == "bounded:"+o.prop && k.Input != "" && k.Input == call {
+					isKnown = true
+					if !shown[k.Input] {
+						shown[k.Input] = true
+						fmt.Printf("KNOWN-FINDING: property=%s %s %s\n", k.Property, call, k.What)
+					}
+				}
+			}
+			if isKnown {
+				continue
+			}
+			n++
+			if n > 3 {
+				break
+			}
+			failed = append(failed, &obResult{Ob: &Obligation{Name: fmt.Sprintf("bounded:%s:%d", o.prop, n), Kind: "bounded", Descr: "bounded check against the real code: " + call + ": " + why}, Status: "bounded-fail", Input: f})
 		}
 	}
 
